@@ -383,6 +383,15 @@ func (e *Exec) contractCall(ins ssa.Instruction, key string, fc *FuncContract, s
 			}
 		}
 	}
+	// values the callee's contract remembers from inside its body are not visible here: each
+	// is some boolean (existentially quantified in the callee's postcondition)
+	for _, sa := range fc.Asserts {
+		if sa.LetName != "" {
+			if _, ok := env.vars[sa.LetName]; !ok {
+				env.vars[sa.LetName] = Scalar{Fresh("rem."+sa.LetName, BoolSort)}
+			}
+		}
+	}
 	for _, l := range fc.Lets {
 		env.vars[l.Name] = env.eval(l.Expr)
 	}
